@@ -563,9 +563,9 @@ Fixpoint dup_push (seen : list (Z * list Z)) (ops : list (Z * sop)) : bool :=
   end.
 
 Definition case_ok (c : tcase) (sh : shape) : bool :=
-  negb (c_bad c) && (1 <=? c_start c) && (c_start c <=? c_end c) && (c_end c <=? c_start c + 1000) &&
-  ((c_mode c =? 0) || ((c_mode c =? 1) && (1 <=? c_rstart c) && (c_rstart c <=? c_rend c) && (c_rend c <=? c_rstart c + 1000))) &&
-  forallb (fun to => (c_start c <=? fst to) && (fst to <=? c_end c) && op_ok (o_path (snd to)) sh (o_code (snd to))) (c_ops c) &&
+  negb (c_bad c) && (1 <=? c_start c) && (c_start c <? c_end c) && (c_end c <=? c_start c + 1000) &&
+  ((c_mode c =? 0) || ((c_mode c =? 1) && (1 <=? c_rstart c) && (c_rstart c <? c_rend c) && (c_rend c <=? c_rstart c + 1000))) &&
+  forallb (fun to => (c_start c <=? fst to) && (fst to <? c_end c) && op_ok (o_path (snd to)) sh (o_code (snd to))) (c_ops c) &&
   negb (dup_push [] (c_ops c)).
 
 Definition times (ops : list (Z * sop)) : list Z := fold_right ins [] (map fst ops).
@@ -610,7 +610,7 @@ Fixpoint run_replay (sh : shape) (buf : buffer) (fuel i : nat) (t tend : Z) (out
   match fuel with
   | O => ([], buf2)
   | S fuel' =>
-      if (tend <? t) || (length buf <=? i)%nat then ([], buf2)
+      if (tend <=? t) || (length buf <=? i)%nat then ([], buf2)
       else
         let out' := replay_step sh buf i out in
         let buf2' := recorder sh t out' buf2 in
